@@ -188,6 +188,7 @@ func cmdObserve(args []string) {
 	fmt.Fprintf(&b, "/-- (signing, crypto) pairs for which `ReadDestination` accepts a well-formed KEY-certificate identity -/\ndef destAccepted : List (Nat × Nat) := [%s]\n\n", strings.Join(destOK, ", "))
 	fmt.Fprintf(&b, "/-- the same for `ReadRouterIdentity` -/\ndef ridAccepted : List (Nat × Nat) := [%s]\n\n", strings.Join(ridOK, ", "))
 	fmt.Fprintf(&b, "/-- certificate type bytes `NewCertificateWithType` accepts -/\ndef certTypesAccepted : List Nat := [%s]\n\n", strings.Join(certTypes, ", "))
+	b.WriteString(observeUses())
 	// zero values: every (type, exported argument-free method) pair called on the zero value
 	var zrows, zpanics, zverify []string
 	for _, n := range zeroTypeNames() {
